@@ -258,8 +258,68 @@ def t_matrix():
     return stats
 
 
+# ------------------------------------------------------------------ word operators and alias literals, token for token
+
+WORD_TEMPLATES = [
+    "!@.a", "!@.a == false", "!@.a != @.b", "!@.a < 1", "!@.a in [false, 0]", "!@.a && @.b", "!@.a || @.b", "!@.a && !@.b", "!(@.a == false)",
+    "!(@.a && @.b) || @.c", "@.a == 1 && !@.b || @.c", "@.a && @.b || @.c && @.a", "@.a || @.b && @.c", "(@.a || @.b) && @.c", "!@.a == !@.b",
+    "@.a == true && @.b != null", "@.a && !(@.b || @.c)", "@.a == 1 || @.b == 0 && @.c == null", "!(!@.a)", "!(@.a || !(@.b && @.c))",
+    "@.a != false || !@.b && @.c == true", "!@.a == null", "@.a == null || @.b == false", "!@.a && @.b == 1 || !@.c", "@.a == !@.b",
+    "!@.a != !@.b || @.c", "!@.a <= @.b", "!(@.a == true) == false",
+]
+WORD_SUBS = [  # (name, [(regex, replacement)...])
+    ("words", [(r"&&", " and "), (r"\|\|", " or "), (r"!(?!=)", "not ")]),
+    ("words-tight", [(r" && ", " and "), (r" \|\| ", " or "), (r"!(?!=)\(", "not ("), (r"!(?!=)", "not ")]),
+    ("ne", [(r"!=", "<>")]),
+    ("caps", [(r"\btrue\b", "True"), (r"\bfalse\b", "False"), (r"\bnull\b", "None")]),
+    ("nil", [(r"\bnull\b", "nil")]),
+    ("none", [(r"\bnull\b", "none")]),
+    ("all", [(r"&&", " and "), (r"\|\|", " or "), (r"!=", "<>"), (r"!(?!=)", "not "), (r"\btrue\b", "True"), (r"\bnull\b", "nil")]),
+]
+
+
+def t_words():
+    """each template in its symbol spelling and in every word / alias spelling must have the same outcome on every candidate"""
+    import re as _re
+    stats = Stats()
+    vals = ["<absent>", False, True, 0, 1, None]
+    doc = []
+    for a, b, c in itertools.product(vals, repeat=3):
+        o = {}
+        for k, v in (("a", a), ("b", b), ("c", c)):
+            if v != "<absent>" or v is False:
+                if not (isinstance(v, str)):
+                    o[k] = v
+        doc.append(o)
+    n = 0
+    for tpl in WORD_TEMPLATES:
+        base_text = "$[?%s]" % tpl
+        a = lib_values(base_text, doc, None)
+        for name, subs in WORD_SUBS:
+            t2 = tpl
+            for rx, rep in subs:
+                t2 = _re.sub(rx, rep, t2)
+            if t2 == tpl:
+                continue
+            text = "$[?%s]" % t2
+            stats.ev()
+            n += 1
+            b = lib_values(text, doc, None)
+            case = {"origin": "words", "symbols": base_text, "words": text}
+            if a[0] != b[0]:
+                stats.fail("words:error-vs-result:" + name, case, "%r -> %s ; %r -> %s" % (base_text, short(a, 160), text, short(b, 160)))
+            elif a[0] == "ok" and (len(a[1]) != len(b[1]) or any(x[0] != y[0] for x, y in zip(a[1], b[1]))):
+                stats.fail("words:different-result:" + name, case, "%r selects %s, %r selects %s of the 216 candidates" % (
+                    base_text, short([x[0][0] for x in a[1]], 100), text, short([x[0][0] for x in b[1]], 100)))
+            if a[0] == "ok" and 0 < len(a[1]) < len(doc):
+                stats.nt("words", tpl, name)
+    stats.subspaces.append({"name": "28 logical templates x 7 word / alias substitutions, on all 216 objects over a, b, c in {absent, false, true, 0, 1, null}",
+                            "size": n, "exhaustive": True})
+    return stats
+
+
 def tasks(tier, seed):
-    ts = [{"name": "matrix", "fn": "t_matrix"}]
+    ts = [{"name": "matrix", "fn": "t_matrix"}, {"name": "words", "fn": "t_words"}]
     n = 1800 if tier == "quick" else 30000
     for k in range(16):
         ts.append({"name": "random-%d" % k, "fn": "t_random", "kw": {"seed": mix(seed, ID, k), "n": n}})
@@ -268,6 +328,13 @@ def tasks(tier, seed):
 
 def replay(case):
     stats = Stats()
+    if case.get("origin") == "words":
+        doc_stats = t_words()
+        for sig, (n, fs) in doc_stats.failures.items():
+            for f in fs:
+                if f["case"].get("words") == case.get("words"):
+                    stats.fail(sig, f["case"], f["detail"])
+        return stats
     if case.get("origin") == "twin":
         twins(stats, case["ast"], case["doc"], case["text"], case.get("extra"))
     else:
